@@ -192,7 +192,12 @@ class EinsumDistributiveLawMapper(
 
         hlo = index_lambda_to_high_level_op(expr)
 
-        if _can_hlo_be_distributed(hlo):
+        if (_can_hlo_be_distributed(hlo)
+                # an implicit dtype promotion of an array operand does not commute
+                # with the einsum (e.g. a sum over bool is a logical reduction)
+                and all(x.dtype == expr.dtype
+                        for x in (hlo.x1, hlo.x2)  # type: ignore[attr-defined]
+                        if isinstance(x, Array))):
             assert isinstance(hlo, BinaryOp)
             # /!\ Warning: Loses metadata.
             rec_x1 = (
